@@ -82,7 +82,7 @@ try:
     mp = os.path.join(out, 'meta.json')
     if os.path.exists(mp):
         prev = json.load(open(mp))
-    for k_ in ('breaks', 'needs', 'source'):
+    for k_ in ('breaks', 'needs', 'source') + (('suite', 'suite_ok') if a.skip_suite else ()):
         if k_ in prev:
             meta[k_] = prev[k_]
     if 'checks' in prev:
